@@ -1172,8 +1172,11 @@ class TLSConnection(TLSRecordLayer):
                 AlertDescription.illegal_parameter,
                 "Server responded with unrequested NPN Extension"):
                 yield result
+        # in TLS 1.3 the master secret is always bound to the transcript,
+        # the extension is not used there
         if not serverHello.getExtension(ExtensionType.extended_master_secret)\
-            and settings.requireExtendedMasterSecret:
+            and settings.requireExtendedMasterSecret \
+            and real_version < (3, 4):
             for result in self._sendError(
                     AlertDescription.insufficient_security,
                     "Negotiation of Extended master Secret failed"):
